@@ -106,7 +106,7 @@ def b_mux(D, p):
     return d, dict(r=r)
 
 
-spec('Mux', 'C08', lambda tier: prod(sw=[1, 2, 3] if tier == 'thorough' else [1, 2], w=[1, 2]), b_mux,
+spec('Mux', 'C08', lambda tier: [c for c in prod(sw=[1, 2, 3, 4] if tier == 'thorough' else [1, 2, 3], w=[1, 2]) if c['sw'] < 3 or c['w'] == 1], b_mux,
      lambda v, p: dict(r=v['in%d' % v['sel']]))
 
 
@@ -118,7 +118,7 @@ def b_demux(D, p):
     return dict(a=a, sel=sel), {'r%d' % i: w for i, w in enumerate(rs)}
 
 
-spec('Demux', 'C08', lambda tier: prod(sw=[1, 2], w=[1, 2]), b_demux,
+spec('Demux', 'C08', lambda tier: [c for c in prod(sw=[1, 2, 3], w=[1, 2]) if c['sw'] < 3 or c['w'] == 1], b_demux,
      lambda v, p: {'r%d' % i: (v['a'] if v['sel'] == i else 0) for i in range(1 << p['sw'])})
 
 
